@@ -5,6 +5,7 @@ import (
 	"flag"
 	"fmt"
 	"github.com/rbell/toolchest/workqueue"
+	"math"
 	"math/rand"
 	"os"
 	"os/exec"
@@ -155,6 +156,9 @@ func classify(s *sess, prop string) ([]string, bool) {
 		if len(st.O.Consulted) > 0 {
 			tags["adjust-consulted"] = true
 		}
+		if st.O.Res == -9 {
+			tags["caller-hang"] = true
+		}
 		for _, i := range st.O.Started {
 			if enqStep[i] != k {
 				waited++
@@ -226,6 +230,17 @@ type profile struct {
 	wEnq, wFin, wAdj, wDeq, wSetp, wEsub, wErecv, wResize int
 	pAdjItem, pErr                                        float64
 	burst                                                 bool // fill the queue first
+	extreme                                               bool // priorities / adjust values / SetPriority arguments from the int extremes
+}
+
+// priorities at and next to the ends of the int range (differences overflow), and around zero
+var extremes = []int{math.MinInt, math.MinInt + 1, -2, -1, 0, 1, math.MaxInt - 1, math.MaxInt}
+
+func (p profile) prio(r *rand.Rand, lo, n int) int {
+	if p.extreme && r.Intn(3) != 0 {
+		return extremes[r.Intn(len(extremes))]
+	}
+	return lo + r.Intn(n)
 }
 
 func pick(r *rand.Rand, l []int) int { return l[r.Intn(len(l))] }
@@ -281,7 +296,7 @@ func (g *world) runRandom(p profile, gen string) {
 		}
 		switch op {
 		case "enq":
-			s.do(Stim{Op: "enq", A: r.Intn(p.prioRange), B: nItems, Adj: r.Float64() < p.pAdjItem})
+			s.do(Stim{Op: "enq", A: p.prio(r, 0, p.prioRange), B: nItems, Adj: r.Float64() < p.pAdjItem})
 			nItems++
 		case "fin":
 			e := -1
@@ -294,12 +309,12 @@ func (g *world) runRandom(p profile, gen string) {
 			// change one or several adjust functions at once (no quiescence needed in between, nothing reacts)
 			n := 1 + r.Intn(3)
 			for j := 0; j < n; j++ {
-				s.do(Stim{Op: "adj", A: r.Intn(nItems), B: r.Intn(p.prioRange+2) - 1})
+				s.do(Stim{Op: "adj", A: r.Intn(nItems), B: p.prio(r, -1, p.prioRange+2)})
 			}
 		case "deq":
 			s.do(Stim{Op: "deq", A: r.Intn(nItems+1) - r.Intn(2)*0}) // nItems = an unknown id
 		case "setp":
-			s.do(Stim{Op: "setp", A: r.Intn(nItems + 1), B: r.Intn(p.prioRange+2) - 1})
+			s.do(Stim{Op: "setp", A: r.Intn(nItems + 1), B: p.prio(r, -1, p.prioRange+2)})
 		case "esub":
 			s.do(Stim{Op: "esub"})
 			nsub++
@@ -308,7 +323,7 @@ func (g *world) runRandom(p profile, gen string) {
 		case "resize":
 			s.do(Stim{Op: "resize", A: 1 + r.Intn(6)})
 		}
-		if s.unstable {
+		if s.unstable || s.hung {
 			break
 		}
 	}
@@ -459,6 +474,14 @@ func corpus() []script {
 		{1, 6, []Stim{enq(1, 0), enq(1, 1), enqA(2, 2), enq(3, 3), enqA(4, 4), adjv(2, 9), deq(2), fin(0), fin(1)}, "corpus-dequeue-after-adjust-change"},
 		{1, 6, []Stim{enq(1, 0), enq(1, 1), enqA(2, 2), enq(3, 3), enqA(4, 4), adjv(2, 9), adjv(4, 0), deq(3), fin(0), fin(1)}, "corpus-dequeue-other-after-adjust-change"},
 		{1, 6, []Stim{enq(1, 0), enq(1, 1), enqA(2, 2), enq(3, 3), enq(5, 4), adjv(2, 9), setp(4, 0), fin(0), fin(1)}, "corpus-setpriority-after-adjust-change"},
+		// priorities further apart than the int range: the order must not be computed from a difference
+		{1, 6, []Stim{enq(0, 0), enq(0, 1), enq(math.MaxInt, 2), enq(-2, 3), enq(5, 4), enq(math.MinInt, 5), fin(0), fin(1)}, "corpus-extreme-priorities-enqueue"},
+		{1, 6, []Stim{enq(0, 0), enq(0, 1), enqA(1, 2), enqA(2, 3), enq(3, 4), adjv(2, math.MaxInt), adjv(3, math.MinInt), fin(0), fin(1)}, "corpus-extreme-priorities-adjust"},
+		{1, 6, []Stim{enq(0, 0), enq(0, 1), enq(1, 2), enq(2, 3), enq(-1, 4), setp(3, math.MinInt), setp(4, math.MaxInt), fin(0), fin(1)}, "corpus-extreme-priorities-setpriority"},
+		// Errors() called again while an earlier error still waits for a subscriber that has not started reading: the
+		// call returns, other work keeps completing, the first subscriber gets the error once, the late one nothing
+		{1, 2, []Stim{{Op: "esub"}, enq(1, 0), enq(1, 1), enq(1, 2), finE(0, 0), {Op: "esub"}, fin(1), {Op: "erecv", A: 0}, {Op: "erecv", A: 1}, {Op: "erecv", A: 0}}, "corpus-subscribe-during-blocked-fanout"},
+		{2, 1, []Stim{{Op: "esub"}, {Op: "esub"}, enq(1, 0), enq(1, 1), enq(1, 2), finE(0, 0), {Op: "erecv", A: 0}, {Op: "esub"}, finE(1, 1), fin(2), {Op: "erecv", A: 1}, {Op: "erecv", A: 0}, {Op: "erecv", A: 1}, {Op: "erecv", A: 2}}, "corpus-subscribe-mid-fanout"},
 	}
 }
 
@@ -1037,6 +1060,11 @@ func main() {
 			if *prop == "C09" && i%3 == 2 {
 				q.pErr = 0
 				gen = "random-no-errors"
+			}
+			if (*prop == "C05" && i%3 == 1) || (*prop == "C16" && i%4 == 2) {
+				// priorities, adjust values and SetPriority arguments at the ends of the int range
+				q.extreme = true
+				gen = "random-extreme-priorities"
 			}
 			if *prop == "C16" && i%2 == 1 {
 				// adjust functions that change value between Enqueue and the Dequeue/SetPriority call
